@@ -182,7 +182,7 @@ class Gen:
         self.entities = []
         decl = None
         if self.r.random() < 0.5:
-            decl = (self.r.choice(["1.0", "1.1", "1.0"]), self.r.choice([None, "UTF-8", "iso-8859-1", "x"]),
+            decl = (self.r.choice(["1.0", "1.1", "1.0"]), self.r.choice([None, "UTF-8", "iso-8859-1", "x", "UTF-16", "utf-16le", "UTF-32", "ISO-10646-UCS-2", "UCS-4", "Shift_JIS", "us-ascii"]),
                     self.r.choice([None, True, False]))
         root_name = self.name()
         heads, mids, tails = [], [], []
